@@ -53,6 +53,7 @@ def listing(d):
 
 def run(tier, seed):
     from mudslide.tracer import YAMLTrace, InMemoryTrace, load_log
+    _Y0 = YAMLTrace
     res = Result("C14", tier, seed)
     rng = random.Random(seed)
     thm = check_theorems("C14")
@@ -144,6 +145,17 @@ def run(tier, seed):
         # ---- collect command tabulates the logged values
         if handles and len(handles[0][2]) > 0:
             from mudslide.collect import collect
+            if it % 3 == 0:
+                # a log of a single-surface run (snapshots without an active state) tabulated first: later tables must not change
+                dmd = os.path.join(d, "mdlog"); os.makedirs(dmd, exist_ok=True)
+                ymd = YAMLTrace(base_name="md", location=dmd, log_pitch=3)
+                for j in range(4):
+                    s_md = snap(7000 + j, rng); s_md.pop("active"); ymd.collect(s_md)
+                try:
+                    collect(os.path.join(dmd, ymd.main_log), "tkpe")
+                except Exception:
+                    pass
+                res.count("collect-cmd/after-a-single-surface-log")
             y, m, rec, evs = handles[0]
             main = os.path.join(d, y.main_log)
             names = dict(t="time", k="kinetic", p="potential", e="energy", a="active")
@@ -170,6 +182,38 @@ def run(tier, seed):
                     bad.append(dict(failed="collect command tabulates exactly the logged values (run again in the same process after the trace grew: %d rows for %d snapshots)" % (len(rows), len(rec)), case=dict(info)))
             except Exception as ex:
                 bad.append(dict(failed="collect after growth raised %s: %s" % (type(ex).__name__, ex), case=dict(info)))
+        if it < (6 if tier == "quick" else 30):
+            import mudslide, queue as _qq
+            from mudslide.models import scattering_models as _MM, HarmonicModel as _HMd
+            from mudslide.even_sampling import EvenSamplingTrajectory as _EST
+            cname = ["fssh", "cumulative", "ehrenfest", "afssh", "md", "es"][it % 6]
+            def mk_(tracer_):
+                if cname == "md":
+                    return mudslide.AdiabaticMD(_HMd([0.0], 0.0, [[0.02]], [2000.0]), [0.3], [2.0], dt=5.0, max_steps=9, tracer=tracer_)
+                C_ = dict(fssh=mudslide.TrajectorySH, cumulative=mudslide.TrajectoryCum, ehrenfest=mudslide.Ehrenfest, afssh=mudslide.AugmentedFSSH, es=_EST)[cname]
+                kw_ = dict(spawn_stack=[2], queue=_qq.Queue()) if cname == "es" else {}
+                return C_(_MM["simple"](), [-2.0], [11.0], 0, dt=10.0, max_steps=9, seed_sequence=77, tracer=tracer_, **kw_)
+            dreal = os.path.join(d, "real"); os.makedirs(dreal, exist_ok=True)
+            res.count("real-trajectory-to-yaml/" + cname)
+            try:
+                ty_ = _Y0(base_name="rt", location=dreal, log_pitch=4); mk_(ty_).simulate(); tm_ = InMemoryTrace(); mk_(tm_).simulate()
+                ly_ = load_log(os.path.join(dreal, ty_.main_log))
+                if len(ly_) != len(tm_) or any(not same_num(a_, b_) for a_, b_ in zip(ly_, tm_)):
+                    bad.append(dict(failed="both trace stores return the same data: a %s run logged to YAML files and reloaded differs from the same run logged in memory (%d vs %d snapshots)" % (cname, len(ly_), len(tm_)), case=dict(cls=cname)))
+            except Exception as ex:
+                bad.append(dict(failed="both trace stores return the same data: a %s run cannot be logged to the YAML store (%s: %s)" % (cname, type(ex).__name__, str(ex)[:200]), case=dict(cls=cname)))
+        # a log directory copied elsewhere is a log of its own: loading the copy and appending to it leaves the original untouched
+        if handles and len(handles[0][2]) > 0 and it % 2 == 0:
+            y0_ = handles[0][0]; dcopy = d + "_copy"; shutil.copytree(d, dcopy)
+            before_ = listing(d)
+            lc_ = load_log(os.path.join(dcopy, y0_.main_log)); n0_ = len(lc_)
+            for j in range(pitch0 + 1):
+                lc_.collect(snap(5000 + j, rng))
+            res.count("directory-copied")
+            again_ = load_log(os.path.join(dcopy, y0_.main_log))
+            if listing(d) != before_ or len(again_) != n0_ + pitch0 + 1 or n0_ != len(handles[0][2]):
+                bad.append(dict(failed="a YAML trace reloaded from disk continues seamlessly when more snapshots are appended, and never overwrites files of other traces (a copied log directory: the copy reloads with %d snapshots after %d + %d were recorded; original directory changed: %r)" % (len(again_), n0_, pitch0 + 1, listing(d) != before_), case=dict(info)))
+            shutil.rmtree(dcopy, ignore_errors=True)
         # the weight of a trace survives a reload (zero included)
         from mudslide.tracer import YAMLTrace as _Y, load_log as _ll
         for w_ in (0.0, 0.3125, 1.0):
